@@ -5,7 +5,7 @@ From MV Require Import Model.WrapModel.
 Import ListNotations.
 
 Section AnyField.
-Context {N : NumOps}.
+Context {N : NumOps} {T : Tols}.
 Hypothesis Fth : field_theory f0 f1 fadd fmul fsub fopp fdiv finv (@eq F).
 Hypothesis feqb_eq : forall x y : F, feqb x y = true -> x = y.
 Hypothesis fltb_irrefl : forall x : F, fltb x x = false.
@@ -170,7 +170,8 @@ Qed.
 Lemma sphere_consistent r :
   consistent (bhjm_sphere mu0 FB r) (bhjm_sphere mu0 FH r) (bhjm_sphere mu0 FJ r) (bhjm_sphere mu0 FM r).
 Proof.
-  unfold consistent, bhjm_sphere. destruct (sph_out r); cbn [negb vsel];
+  unfold consistent, bhjm_sphere. generalize (two / fofZ 3). intros k.
+  destruct (sph_out r); cbn [negb vsel];
   destruct (sph_outside_B r) as [[b1 b2] b3]; destruct (sp_pol r) as [[p1 p2] p3]; split; vfield.
 Qed.
 
@@ -191,9 +192,9 @@ Lemma circle_consistent core r :
              (bhjm_circle core mu0 FJ r) (bhjm_circle core mu0 FM r)
   /\ bhjm_circle core mu0 FJ r = vzero /\ bhjm_circle core mu0 FM r = vzero.
 Proof.
-  unfold consistent, bhjm_circle.
-  destruct (if cir_general r then core r
-            else if cir_mask3 r && negb (cir_mask1 r) then (f0, f0, cir_axis_Hz r) else vzero) as [[c1 c2] c3].
+  unfold consistent, bhjm_circle. cbv zeta.
+  match goal with |- context [if cir_general r then ?a else ?b] =>
+    destruct (if cir_general r then a else b) as [[c1 c2] c3] end.
   repeat split; vfield.
 Qed.
 
@@ -216,7 +217,7 @@ Proof.
   destruct f; try reflexivity.
   - destruct (forallb pol_mask0 rows) eqn:Hall; [|reflexivity].
     apply Hz. intros r Hr. rewrite forallb_forall in Hall. unfold bhjm_polyline. rewrite (Hall r Hr).
-    cbn. reflexivity.
+    cbn. unfold vzero. apply vec_eq; ring.
   - destruct (forallb pol_mask0 rows) eqn:Hall; [|reflexivity].
     apply Hz. intros r Hr. rewrite forallb_forall in Hall. unfold bhjm_polyline. rewrite (Hall r Hr).
     reflexivity.
@@ -229,5 +230,188 @@ Lemma dipole_consistent core r :
 Proof.
   unfold consistent, bhjm_dipole. destruct (core r) as [[c1 c2] c3]. repeat split; vfield.
 Qed.
+
+(* ------------------------------------------------------------------ Tetrahedron *)
+Lemma chirality_pol r : te_pol (chirality r) = te_pol r.
+Proof. unfold chirality. destruct (_ <? f0); reflexivity. Qed.
+
+Lemma fltb_neq x : (x <? f0) = true -> x <> f0.
+Proof. intros H E. subst x. rewrite fltb_irrefl in H. discriminate. Qed.
+
+Lemma det3_swap a b c : det3 a c b = - det3 a b c.
+Proof. destruct a as [[? ?] ?], b as [[? ?] ?], c as [[? ?] ?]. unfold det3. ring. Qed.
+
+(* the inside test does not see the exchange of p2 and p3 made by check_chirality *)
+Lemma tet_inside_chirality io r : tet_inside io (chirality r) = tet_inside io r.
+Proof.
+  unfold chirality.
+  destruct (det3 (vsub (te_v1 r) (te_v0 r)) (vsub (te_v2 r) (te_v0 r)) (vsub (te_v3 r) (te_v0 r)) <? f0) eqn:Hd;
+    [|reflexivity].
+  apply fltb_neq in Hd.
+  destruct io; try reflexivity.
+  unfold tet_inside, point_inside, bary. cbn [te_obs te_v0 te_v1 te_v2 te_v3].
+  destruct (te_obs r) as [[o1 o2] o3]. destruct (te_v0 r) as [[a1 a2] a3]. destruct (te_v1 r) as [[b1 b2] b3].
+  destruct (te_v2 r) as [[c1 c2] c3]. destruct (te_v3 r) as [[d1 d2] d3].
+  cbn [vsub] in *.
+  set (A := (b1 - a1, b2 - a2, b3 - a3)) in *. set (B := (c1 - a1, c2 - a2, c3 - a3)) in *.
+  set (C := (d1 - a1, d2 - a2, d3 - a3)) in *. set (Q := (o1 - a1, o2 - a2, o3 - a3)) in *.
+  assert (Hs : det3 A C B <> f0).
+  { intros E. apply Hd. rewrite det3_swap in E.
+    replace (det3 A B C) with (- - det3 A B C) by ring. rewrite E. ring. }
+  assert (E1 : det3 Q C B / det3 A C B = det3 Q B C / det3 A B C).
+  { subst A B C Q. unfold det3 in *. field. split; assumption. }
+  assert (E2 : det3 A Q B / det3 A C B = det3 A B Q / det3 A B C).
+  { subst A B C Q. unfold det3 in *. field. split; assumption. }
+  assert (E3 : det3 A C Q / det3 A C B = det3 A Q C / det3 A B C).
+  { subst A B C Q. unfold det3 in *. field. split; assumption. }
+  rewrite E1, E2, E3.
+  set (l1 := det3 Q B C / det3 A B C). set (l2 := det3 A Q C / det3 A B C). set (l3 := det3 A B Q / det3 A B C).
+  replace (l1 + l3 + l2) with (l1 + l2 + l3) by ring.
+  destruct (f0 <=? l1), (f0 <=? l2), (f0 <=? l3), (l1 <=? f1), (l2 <=? f1), (l3 <=? f1); reflexivity.
+Qed.
+
+Lemma tetrahedron_consistent core io r :
+  consistent (bhjm_tetrahedron core mu0 io FB r) (bhjm_tetrahedron core mu0 io FH r)
+             (bhjm_tetrahedron core mu0 io FJ r) (bhjm_tetrahedron core mu0 io FM r).
+Proof.
+  unfold consistent, bhjm_tetrahedron. cbv zeta.
+  rewrite tet_inside_chirality, chirality_pol.
+  generalize (chirality r). intros r'.
+  unfold tri_sum, tet_faces. cbn [fold_left]. unfold bhjm_triangle.
+  repeat match goal with |- context [core ?x] => destruct (core x) as [[? ?] ?] end.
+  destruct (te_pol r) as [[p1 p2] p3].
+  destruct (tet_inside io r); split; vfield.
+Qed.
+
+Lemma tetrahedron_J core io r : bhjm_tetrahedron core mu0 io FJ r = vsel (tet_inside io r) (te_pol r).
+Proof. reflexivity. Qed.
+
+(* ------------------------------------------------------------------ TriangularMesh *)
+Lemma trimesh_row_consistent core mi me io meshes ir :
+  consistent (bhjm_trimesh_row core mi me mu0 io FB meshes ir) (bhjm_trimesh_row core mi me mu0 io FH meshes ir)
+             (bhjm_trimesh_row core mi me mu0 io FJ meshes ir) (bhjm_trimesh_row core mi me mu0 io FM meshes ir).
+Proof.
+  destruct ir as [i r]. unfold consistent, bhjm_trimesh_row, msh_base. cbv zeta.
+  generalize (tri_sum core mu0 FB (ms_obs r) (ms_pol r) (ms_mesh r)). intros [[b1 b2] b3].
+  destruct (ms_pol r) as [[p1 p2] p3].
+  destruct (msh_ins mi me io meshes i r); split; vfield.
+Qed.
+
+Lemma trimesh_row_J core mi me io meshes i r :
+  bhjm_trimesh_row core mi me mu0 io FJ meshes (i, r) = vsel (msh_ins mi me io meshes i r) (ms_pol r).
+Proof.
+  unfold bhjm_trimesh_row, msh_base. cbv zeta. destruct (ms_pol r) as [[p1 p2] p3].
+  destruct (msh_ins mi me io meshes i r); vfield.
+Qed.
+
+Lemma trimesh_batch_rows core mi me io f rows :
+  bhjm_trimesh_batch core mi me mu0 io f rows =
+  map (bhjm_trimesh_row core mi me mu0 io f (map ms_mesh rows)) (combine (seq 0 (length rows)) rows).
+Proof. reflexivity. Qed.
+
+(* ------------------------------------------------------------------ excitation attributes *)
+Lemma exc_step_sync c s a : c <> f0 -> exc_sync c (exc_step c c s a).
+Proof.
+  intros Hc. destruct a as [[p|]|[m|]]; cbn; try exact I; try reflexivity.
+  destruct p as [[p1 p2] p3]. vfield.
+Qed.
+
+Lemma exc_run_sync c : c <> f0 -> forall h s, exc_sync c s -> exc_sync c (exc_run c c s h).
+Proof.
+  intros Hc h. induction h as [|a h IH]; intros s Hs; [exact Hs|].
+  cbn. apply IH. apply exc_step_sync. exact Hc.
+Qed.
+
+Lemma exc_init_sync c : exc_sync c exc_init.
+Proof. exact I. Qed.
+
+(* with two different constants the relation holds for the constant of the LAST assignment only *)
+Lemma exc_setmag_value c_mul c_div s m :
+  e_pol (exc_step c_mul c_div s (SetMag (Some m))) = Some (vmuls m c_mul).
+Proof. reflexivity. Qed.
+
+(* ------------------------------------------------------------------ the property per wrapper, in one statement *)
+Definition magnet_spec (b h j m pol : vec) (inside : bool) : Prop :=
+  b = vadd (vmuls h mu0) j /\ j = vmuls m mu0 /\
+  j = vsel inside pol /\ (j = pol \/ j = vzero) /\ (pol <> vzero -> (j = pol <-> inside = true)).
+Definition current_spec (b h j m : vec) : Prop :=
+  b = vadd (vmuls h mu0) j /\ j = vmuls m mu0 /\ j = vzero /\ m = vzero.
+
+Lemma J_spec b pol j : j = vsel b pol -> j = vsel b pol /\ (j = pol \/ j = vzero) /\ (pol <> vzero -> (j = pol <-> b = true)).
+Proof. intros ->. split; [reflexivity|]. split; [apply vsel_cases|]. intros H. apply vsel_iff. exact H. Qed.
+
+Lemma cuboid_full core r :
+  magnet_spec (bhjm_cuboid core mu0 FB r) (bhjm_cuboid core mu0 FH r) (bhjm_cuboid core mu0 FJ r)
+              (bhjm_cuboid core mu0 FM r) (cu_pol r) (cub_inside r).
+Proof. destruct (cuboid_consistent core r) as [H1 H2]. split; [exact H1|]. split; [exact H2|]. apply J_spec. reflexivity. Qed.
+
+Lemma cylinder_full tv ax r :
+  cyl_on_edge r = false \/ cy_pol r = vzero \/ cyl_inside0 r = false ->
+  magnet_spec (bhjm_cylinder tv ax mu0 FB r) (bhjm_cylinder tv ax mu0 FH r) (bhjm_cylinder tv ax mu0 FJ r)
+              (bhjm_cylinder tv ax mu0 FM r) (cy_pol r) (cyl_inside0 r).
+Proof.
+  intros H. split; [apply cylinder_BHJ; exact H|]. split; [apply cylinder_JM|]. apply J_spec. apply cylinder_J.
+Qed.
+
+(* J, M and J = mu0*M need no exclusion *)
+Lemma cylinder_JM_full tv ax r :
+  let j := bhjm_cylinder tv ax mu0 FJ r in
+  j = vmuls (bhjm_cylinder tv ax mu0 FM r) mu0 /\ j = vsel (cyl_inside0 r) (cy_pol r) /\
+  (j = cy_pol r \/ j = vzero) /\ (cy_pol r <> vzero -> (j = cy_pol r <-> cyl_inside0 r = true)).
+Proof. cbv zeta. split; [apply cylinder_JM|]. apply J_spec. apply cylinder_J. Qed.
+
+Lemma seg_row_full core r :
+  seg_not_on_surf r = true \/ seg_inside r = false \/ cs_pol r = vzero ->
+  magnet_spec (bhjm_seg_row core mu0 FB true r) (bhjm_seg_row core mu0 FH true r) (bhjm_seg_row core mu0 FJ true r)
+              (bhjm_seg_row core mu0 FM true r) (cs_pol r) (seg_inside r).
+Proof.
+  intros H. split; [apply seg_row_BHJ; exact H|]. split; [apply seg_row_JM|]. apply J_spec. reflexivity.
+Qed.
+
+(* a batch without any off-surface row: all four outputs are zero (consistent; J = 0 whatever the position) *)
+Lemma seg_row_all_surface core r :
+  let out f := bhjm_seg_row core mu0 f false r in
+  out FB = vadd (vmuls (out FH) mu0) (out FJ) /\ out FJ = vmuls (out FM) mu0 /\ out FJ = vzero.
+Proof. cbv zeta. cbn. repeat split; vfield. Qed.
+
+Lemma sphere_full r :
+  magnet_spec (bhjm_sphere mu0 FB r) (bhjm_sphere mu0 FH r) (bhjm_sphere mu0 FJ r) (bhjm_sphere mu0 FM r)
+              (sp_pol r) (negb (sph_out r)).
+Proof. destruct (sphere_consistent r) as [H1 H2]. split; [exact H1|]. split; [exact H2|]. apply J_spec. reflexivity. Qed.
+
+Lemma tetrahedron_full core io r :
+  magnet_spec (bhjm_tetrahedron core mu0 io FB r) (bhjm_tetrahedron core mu0 io FH r)
+              (bhjm_tetrahedron core mu0 io FJ r) (bhjm_tetrahedron core mu0 io FM r) (te_pol r) (tet_inside io r).
+Proof.
+  destruct (tetrahedron_consistent core io r) as [H1 H2]. split; [exact H1|]. split; [exact H2|].
+  apply J_spec. reflexivity.
+Qed.
+
+Lemma trimesh_row_full core mi me io meshes i r :
+  magnet_spec (bhjm_trimesh_row core mi me mu0 io FB meshes (i, r)) (bhjm_trimesh_row core mi me mu0 io FH meshes (i, r))
+              (bhjm_trimesh_row core mi me mu0 io FJ meshes (i, r)) (bhjm_trimesh_row core mi me mu0 io FM meshes (i, r))
+              (ms_pol r) (msh_ins mi me io meshes i r).
+Proof.
+  destruct (trimesh_row_consistent core mi me io meshes (i, r)) as [H1 H2]. split; [exact H1|]. split; [exact H2|].
+  apply J_spec. apply trimesh_row_J.
+Qed.
+
+Lemma triangle_full core r :
+  current_spec (bhjm_triangle core mu0 FB r) (bhjm_triangle core mu0 FH r) (bhjm_triangle core mu0 FJ r) (bhjm_triangle core mu0 FM r).
+Proof. destruct (triangle_consistent core r) as [[H1 H2] [H3 H4]]. repeat split; assumption. Qed.
+Lemma circle_full core r :
+  current_spec (bhjm_circle core mu0 FB r) (bhjm_circle core mu0 FH r) (bhjm_circle core mu0 FJ r) (bhjm_circle core mu0 FM r).
+Proof. destruct (circle_consistent core r) as [[H1 H2] [H3 H4]]. repeat split; assumption. Qed.
+Lemma polyline_full core r :
+  current_spec (bhjm_polyline core mu0 FB r) (bhjm_polyline core mu0 FH r) (bhjm_polyline core mu0 FJ r) (bhjm_polyline core mu0 FM r).
+Proof. destruct (polyline_consistent core r) as [[H1 H2] [H3 H4]]. repeat split; assumption. Qed.
+Lemma dipole_full core r :
+  current_spec (bhjm_dipole core mu0 FB r) (bhjm_dipole core mu0 FH r) (bhjm_dipole core mu0 FJ r) (bhjm_dipole core mu0 FM r).
+Proof. destruct (dipole_consistent core r) as [[H1 H2] [H3 H4]]. repeat split; assumption. Qed.
+
+Lemma seg_internal_batch_rows core tv ax f rows :
+  bhjm_seg_internal_batch core tv ax mu0 f rows =
+  map (bhjm_seg_internal_row core tv ax mu0 f (existsb seg_not_on_surf (filter seg_is_segment rows))) rows.
+Proof. reflexivity. Qed.
 
 End AnyField.
